@@ -50,6 +50,13 @@ impl SwiftField for Field55A {
         // Parse BIC code
         let bic = parse_bic(lines[line_idx])?;
 
+        // The BIC is the last line of option A: anything after it would be silently dropped
+        if lines.len() > line_idx + 1 {
+            return Err(ParseError::InvalidFormat {
+                message: "Field 55A has unexpected lines after the BIC".to_string(),
+            });
+        }
+
         Ok(Field55A {
             party_identifier,
             bic,
